@@ -13,7 +13,9 @@ import (
 func init() {
 	register("C04", &propDef{
 		Title: "Every symlink left by Unpack resolves inside the destination",
-		Rules: []func(*Checker){ruleC04Guard, ruleC04Accept, ruleC04Lexical, ruleC04Relative("C04.relative"), rulePredSound("C04.pred"), rulePackerWriters("C04.allowlist"), ruleAllowBase("C04.allowbase"), aliasRule(ruleC01Walk, "C01.walk", "C04.placement", 3), ruleLinkEntriesJudged("C04.judged"), aliasRuleFiltered(ruleC01Sinks, "C01.sinks", "C04.linkpaths", 1, func(o Oblig) bool { return strings.Contains(o.Key, "Symlink") || strings.Contains(o.Key, "os.Link") || strings.Contains(o.Key, "Rename") })},
+		Rules: []func(*Checker){ruleC04Guard, ruleC04Accept, ruleC04Lexical, ruleC04Relative("C04.relative"), rulePredSound("C04.pred"), rulePackerWriters("C04.allowlist"), ruleAllowBase("C04.allowbase"), aliasRule(ruleC01Walk, "C01.walk", "C04.placement", 3), ruleLinkEntriesJudged("C04.judged"), aliasRuleFiltered(ruleC01Sinks, "C01.sinks", "C04.linkpaths", 1, func(o Oblig) bool {
+			return strings.Contains(o.Key, "Symlink") || strings.Contains(o.Key, "os.Link") || strings.Contains(o.Key, "Rename")
+		})},
 		NotDecided: []string{
 			"physical resolution through other links beyond the necessary condition C04.lexical checks (which entries exist when, chains of links) — a run-time / filesystem fact no sound static rule here decides",
 			"whether the validator distinguishes every spelling of absolute targets (string content)",
